@@ -75,12 +75,16 @@ func (fb *flowBuilder) buildFlow(flowRep internaltypes.FlowRepI) error {
 
 	flow := NewFlow(fb.nodeBuilder, flowRep, fb.resourceManagement)
 
-	// process request and response connections
+	// process request and response connections.
+	// An entry point of an incorporated flow that nothing consumed must not survive into
+	// another direction or another flow: it points into the graph it was created in.
+	fb.foreignRoot = nil
 	if err := fb.buildConnections(
 		flowRep.GetName(), flow.request, flowRep.GetFlow().GetRequest()); err != nil {
 		return fmt.Errorf("failed to build connections for request flow: %w", err)
 	}
 
+	fb.foreignRoot = nil
 	if err := fb.buildConnections(
 		flowRep.GetName(), flow.response, flowRep.GetFlow().GetResponse()); err != nil {
 		return fmt.Errorf("failed to build connections for response flow: %w", err)
